@@ -59,6 +59,10 @@ func runTLC(rep *core.Report, st tlcStage, seed int64, sink func(Script)) *core.
 	}
 	if st.Expect != "" {
 		ok := res.Violation == st.Expect
+		if st.Expect == "temporal" && strings.Contains(res.ErrorText, "Error: Temporal propert") {
+			ok = true // TLC words it "Temporal property X was violated" for a named property
+			res.Violation = "temporal"
+		}
 		l, _ := rep.Extra["multidb_relevance_runs"].([]any)
 		rep.Extra["multidb_relevance_runs"] = append(l, map[string]any{"cfg": st.Cfg, "expected_violation": st.Expect, "found": res.Violation, "as_expected": ok, "distinct": res.Distinct})
 		if !ok {
@@ -324,7 +328,10 @@ func replayFile(rep *core.Report, path string) bool {
 	if err := json.Unmarshal(b, &f); err != nil || f.Replay.Script == nil || len(f.Replay.Script.H) == 0 {
 		return false
 	}
-	runOne(rep, *f.Replay.Script, f.Replay.Config)
+	// the cluster's goroutines run free: a replay is repeated a few times until a monitor fails
+	for i := 0; i < 5 && rep.ViolationCount() == 0; i++ {
+		runOne(rep, *f.Replay.Script, f.Replay.Config)
+	}
 	return true
 }
 
@@ -407,7 +414,7 @@ func Stage(rep *core.Report, args *core.Args) {
 		}
 	}
 	rep.Extra["multidb_control_actions_in_emitted_scripts"] = kinds
-	scripts := sample(all, core.Pick(args, 160, 1500), args.Seed)
+	scripts := sample(all, core.Pick(args, 160, 2500), args.Seed)
 	rep.Note("multidb stage: %d distinct control scripts emitted by TLC, %d kept for execution (stratified by category, seed %d)", len(all), len(scripts), args.Seed)
 	runAll(rep, scripts, args.Seed, thorough, 6)
 	rep.Note("multidb stage took %.1fs", time.Since(t0).Seconds())
